@@ -1041,6 +1041,292 @@ GENS['Debug'] = G_Debug()
 GENS['PartialOrd'] = G_PartialOrd()
 GENS['Ord'] = G_Ord()
 
+# ---------------------------------------------------------------- Default
+INT_TYS = ['u8', 'u16', 'u32', 'u64', 'u128', 'usize', 'i8', 'i16', 'i32', 'i64', 'i128', 'isize']
+FLOAT_TYS = ['f32', 'f64']
+# (kind name, spellings): every literal kind syn::Lit distinguishes
+D_LITS = {
+    'int':      ['0', '1', '42', '1_000', '0xff', '0b101', '0o17', '11111111111111111111111111111'],
+    'int_suf':  ['1u8', '5i64', '7usize', '1_u16', '0x1fu32', '3i128', '9isize', '2u128', '1i8', '1i16',
+                 '1i32', '1u64', '1f32', '2f64', '1foo'],
+    'float':    ['1.5', '2.', '1e3', '1e-3', '0.1', '1_0.0_1'],
+    'float_suf': ['1.5f32', '2.5f64', '1e3f32', '1.0foo'],
+    'str':      ['"Hi"', '""', '"a b"', 'r"raw"', 'r#"a"b"#', '"q\\"uote"', '"T: Clone"', '"u8::MAX"'],
+    'char':     ["'M'", "'\\n'", "'\\''", "'\\u{1F600}'"],
+    'byte':     ["b'a'", "b'\\n'", "b'\\x7f'"],
+    'bytestr':  ['b"ab"', 'br"ab"', 'b""'],
+    'cstr':     ['c"ab"'],
+    'bool':     ['true', 'false'],
+    'neg_int':  ['-1', '-0x10', '-1i8', '-11111111111111111111111111111'],
+    'neg_float': ['-1.5', '-2.', '-1e3', '-1.5f32'],
+}
+D_LIT_KINDS = sorted(D_LITS)
+# field types the auto-adjust table distinguishes (plus decoys that look similar)
+D_TYPES = INT_TYS + FLOAT_TYS + ['bool', 'char', "&'static str", '&str', "&'static mut str", 'String', 'u8',
+          'Option<u8>', 'Option<String>', "&'static [u8; 2]", '&[u8; 2]', "&'static [u8]", "&'static [i8; 2]",
+          '[u8; 2]', '(u8)', '::core::primitive::u8', 'std::primitive::bool', 'foo', 'r#u8', "&&'static str",
+          'Vec<u8>', "&'static mut [u8; 2]", 'str', 'Self']
+D_PATHS = ['u8::MAX', 'Self::X', 'X', '::core::u8::MAX', 'crate::a::B', 'self::C', 'super::D', 'Self', 'r#type']
+D_CALLS = ['f(1, 2)', 'String::new()', 'Self::make()', 'f()', 'g(1,)', 'h(-1, "a", \'c\')', 'f(g(1), u8::MAX)',
+           'String::from("Hello")', '::core::default::Default::default()', 'Some(1)', 'f(1)(2)', 'f((1, 2), ())']
+D_OTHERS = ['0 + 1', '-11111111111111111111111111111 * -1', '1.0 + 0.1', '!false', '-x', '&1', '*p', '&&x',
+            'a * b - 3 / c % 2 ^ d & e', '(1)', '(1, 2)', '()', '(1,)', '-(1)', '"abc".to_string()', 'a.b',
+            'a.b.c(1).d', 'a[0]', 'a[i + 1].f(2)', 'vec![1, 2]', 'format!("x{}", 1)', 'm!{a b}', 'a::m!(;)',
+            '{ 1 }', '{ f(1) }', 'P { a: 1, b: "x" }', 'P {}', 'P { a }', 'a::P { a: 1, }', 'Self { x: -1 }',
+            "-'a'", '-"s"', '-true', '- -1', '!-1', 'f(P { a: 1 })', 'x & &y', '1 - -1']
+# expressions the (non-"full") syn parser refuses
+D_BAD_EXPRS = ['1 2', 'f(1 2)', '[1, 2]', '+1', 'a ! b', 'a::', 'f(,)', '(,)', 'a b', '1 +', '-', '{ 1 2 }',
+               '{ }', 'a::(1)', '"a" "b"', 'f(1,,2)', '/ 2', 'a.b!(1)', '1 true', 'a[1 2]', 'a[]', '::']
+
+def d_gen_expr(ctx):
+    """returns (text, kind)"""
+    r = ctx.rng
+    c = r.random()
+    if c < 0.62:
+        k = pick(r, D_LIT_KINDS)
+        return pick(r, D_LITS[k]), k
+    if c < 0.72:
+        return pick(r, D_PATHS), 'path'
+    if c < 0.82:
+        return pick(r, D_CALLS), 'call'
+    return pick(r, D_OTHERS), 'other'
+
+def d_form(text):
+    """'expr = 1' -> 'expr=', 'expression(1)' -> 'expression()', 'new' -> 'new' (reach bookkeeping only)"""
+    import re
+    name = re.match(r'[A-Za-z_]+', text).group(0)
+    rest = text[len(name):].lstrip()
+    return name + ('=' if rest.startswith('=') else '()' if rest.startswith('(') else rest[:1] + '..' if rest[:1] in ('[', '{') else '')
+
+def d_sp_expr_param(sp, e):
+    """list-style spelling of an expression parameter"""
+    if sp.random() < 0.04:          # parse_args ignores the delimiter kind
+        return pick(sp, ['expression[%s]' % e, 'expr{%s}' % e])
+    return pick(sp, ['expression = %s' % e, 'expression(%s)' % e, 'expr = %s' % e, 'expr(%s)' % e])
+
+D_NATURAL = {
+    'int': INT_TYS, 'int_suf': INT_TYS, 'float': FLOAT_TYS, 'float_suf': FLOAT_TYS,
+    'str': ["&'static str", '&str', "&'static mut str"], 'char': ['char'], 'byte': ['u8'],
+    'bytestr': ["&'static [u8; 2]", '&[u8; 2]', "&'static mut [u8; 2]"], 'bool': ['bool'],
+    'neg_int': ['i8', 'i16', 'i32', 'i64', 'i128', 'isize', 'u8'], 'neg_float': FLOAT_TYS,
+}
+
+def d_type_for(ctx, kind, text):
+    """a field type to put the literal kind against: the kind's natural types, the whole table
+    (decoys included), a generic parameter, or the type already generated"""
+    import re
+    r = ctx.rng
+    c = r.random()
+    if c < 0.30 and kind in D_NATURAL:
+        m = re.search(r'([iu](8|16|32|64|128|size)|f32|f64|foo)$', text)
+        if m and kind in ('int_suf', 'float_suf') and r.random() < 0.5:
+            return m.group(1)                 # the type named by the literal's suffix
+        return pick(r, D_NATURAL[kind])
+    if c < 0.70:
+        return pick(r, D_TYPES)
+    if c < 0.85 and ctx.type_params:
+        return pick(r, ctx.type_params)
+    return None          # keep the generated type
+
+class G_Default(TG):
+    name = 'Default'
+    def note(self, ctx, *key):
+        ctx.notes.setdefault('reach', []).append(('Default',) + key)
+
+    def type_meta(self, ctx):
+        r, sp = ctx.rng, ctx.sp
+        n = ctx.notes
+        n['d_texpr'] = False
+        params = []
+        forms = []
+        if r.random() < 0.18:
+            e, k = d_gen_expr(ctx)
+            if r.random() < 0.4:
+                e = pick(r, ['S { a: 1 }', 'E::A', 'Self::new_default()', 'make()', 'S(1, 2)', 'Foo { a: 1, b: 2 }'])
+                k = 'ctor'
+            n['d_texpr'] = True
+            spell = d_sp_expr_param(sp, e)
+            params.append(spell)
+            forms.append(('expression', k, d_form(spell)))
+        if r.random() < 0.3:
+            v = r.random() < 0.8
+            spell = sp_bool_param(sp, 'new', v)
+            params.append(spell)
+            forms.append(('new', v, d_form(spell)))
+        mode, b = gen_bound(ctx)
+        if b is not None:
+            params.append(b)
+            forms.append(('bound', mode, d_form(b)))
+        if ctx.want_fault and ctx.fault is None and r.random() < 0.12:
+            bad = pick(r, ['Default = 1', 'Default = "x"', 'Default(foo)', 'Default(new, new = true)',
+                           'Default(expression = 1, expr(2))', 'Default(new = 1)', 'Default(new(1))', 'Default(new = "true")',
+                           'Default(expression)', 'Default(expr)', 'Default(expression())', 'Default(expression(1, 2))',
+                           'Default(expression = )', 'Default(bound)', 'Default(bound(*), bound = false)',
+                           'Default(a::new)', 'Default(::new)', 'Default(new())', 'Default(expression(1,))',
+                           'Default(expr = %s)' % pick(r, D_BAD_EXPRS), 'Default(expression(%s))' % pick(r, D_BAD_EXPRS),
+                           'Default(expression = 1 new)', 'Default(new expression = 1)'])
+            ctx.fault = 'default_type:' + bad
+            n['d_texpr'] = 'expression' in bad or 'expr' in bad
+            self.note(ctx, 'type', 'fault', bad[:16])
+            return bad
+        for f in forms:
+            self.note(ctx, 'type', *f)
+        if not forms:
+            self.note(ctx, 'type', 'flag')
+        return trait_with_params(sp, 'Default', params)
+
+    # --- enums: the default variant is drawn when the first variant is generated
+    def variant_meta(self, ctx, variant):
+        r, sp, n = ctx.rng, ctx.sp, ctx.notes
+        if variant.index == 0:
+            n['d_dv'] = r.randrange(variant.count)
+            n['d_vfault'] = None
+            if ctx.want_fault and ctx.fault is None and not n.get('d_texpr') and r.random() < 0.25:
+                n['d_vfault'] = pick(r, ['none', 'two', 'bad_form', 'field_on_other', 'empty_list'])
+        vf = n.get('d_vfault')
+        if n.get('d_texpr'):
+            # a type-level expression: variants must not carry the attribute
+            if ctx.want_fault and ctx.fault is None and r.random() < 0.1:
+                bad = pick(r, ['Default', 'Default(new)', 'Default = 1'])
+                ctx.fault = 'default_variant_with_texpr:' + bad
+                self.note(ctx, 'variant', 'texpr', 'fault', bad)
+                return bad
+            if r.random() < 0.1:
+                self.note(ctx, 'variant', 'texpr', 'Default()')
+                return 'Default()'          # accepted: an empty list sets nothing
+            return None
+        is_default = variant.index == n['d_dv']
+        if vf == 'none' and variant.count != 1:
+            ctx.fault = 'default_no_variant'
+            self.note(ctx, 'variant', 'fault', 'none')
+            return None
+        if vf == 'two' and variant.count >= 2:
+            other = (n['d_dv'] + 1) % variant.count
+            if variant.index == other:
+                ctx.fault = 'default_multi_variants'
+                self.note(ctx, 'variant', 'fault', 'two')
+                return 'Default'
+        if vf == 'bad_form' and is_default:
+            bad = pick(r, ['Default(new)', 'Default = 1', 'Default(bound(*))', 'Default(expression = 1)', 'Default(flag)',
+                           'Default = true', 'Default(expr(1))', 'Default(bound = false)', 'Default, Default',
+                           'Default(), Default'])
+            ctx.fault = 'default_variant_form:' + bad
+            self.note(ctx, 'variant', 'fault', bad)
+            return bad
+        if vf == 'empty_list' and is_default and variant.count >= 2:
+            ctx.fault = 'default_variant_empty_list'      # `Default()` is not the flag
+            self.note(ctx, 'variant', 'fault', 'Default()')
+            return 'Default()'
+        if is_default:
+            if variant.count == 1 and r.random() < 0.5:
+                self.note(ctx, 'variant', 'only', variant.kind, 'unmarked')
+                return None
+            self.note(ctx, 'variant', 'only' if variant.count == 1 else 'marked', variant.kind, 'flag')
+            return 'Default'
+        if r.random() < 0.05:
+            self.note(ctx, 'variant', 'other', 'Default()')
+            return 'Default()'              # accepted on a non-default variant: flag stays false
+        return None
+
+    def value_meta(self, ctx, field, where):
+        """a field that may carry a default value: returns the meta text or None"""
+        r, sp = ctx.rng, ctx.sp
+        if r.random() < 0.45:
+            self.note(ctx, 'field', where, 'no_value')
+            if r.random() < 0.08:
+                self.note(ctx, 'field', where, 'Default()')
+                return 'Default()'
+            return None
+        e, k = d_gen_expr(ctx)
+        ty = d_type_for(ctx, k, e)
+        if ty is not None:
+            field.ty = ty
+        tyclass = field.ty if field.ty in D_TYPES else ('T' if field.ty in ctx.type_params else 'other')
+        spell = pick(sp, ['Default = %s' % e, 'Default(%s)' % d_sp_expr_param(sp, e)])
+        form = 'Default=' if spell.startswith('Default =') else d_form(spell[len('Default('):])
+        self.note(ctx, 'value', 'where x form', where, form)
+        self.note(ctx, 'value', 'kind x type', k, tyclass)
+        if ctx.want_fault and ctx.fault is None and r.random() < 0.2:
+            bad = pick(r, ['Default(foo)', 'Default(expression = 1, expression = 2)', 'Default(expr = 1, expression(2))',
+                           'Default(expr)', 'Default(expression)', 'Default(new)', 'Default(bound(*))',
+                           'Default(expression())', 'Default(expression(1, 2))', 'Default = ', 'Default(expression = )',
+                           'Default = %s' % pick(r, D_BAD_EXPRS), 'Default(expr = %s)' % pick(r, D_BAD_EXPRS),
+                           'Default(expression(%s))' % pick(r, D_BAD_EXPRS), 'Default(a::expr = 1)', 'Default(expression(1,))',
+                           'Default = 1, Default = 2', 'Default(expr = 1), Default()'])
+            if where != 'union':
+                bad = pick(r, [bad, bad, 'Default'])     # the flag is only allowed on union fields
+            ctx.fault = 'default_field:' + bad
+            self.note(ctx, 'field', where, 'fault', bad[:18])
+            return bad
+        return spell
+
+    def field_meta(self, ctx, field):
+        r, sp, n = ctx.rng, ctx.sp, ctx.notes
+        if n.get('d_texpr'):
+            if ctx.want_fault and ctx.fault is None and r.random() < 0.06:
+                bad = pick(r, ['Default = 1', 'Default(expression = 1)', 'Default'])
+                ctx.fault = 'default_field_with_texpr:' + bad
+                self.note(ctx, 'field', 'texpr', 'fault', bad)
+                return bad
+            if r.random() < 0.05:
+                self.note(ctx, 'field', 'texpr', 'Default()')
+                return 'Default()'
+            return None
+        if ctx.kind == 'struct':
+            return self.value_meta(ctx, field, 'struct_named' if field.named else 'struct_tuple')
+        if ctx.kind == 'enum':
+            v = field.variant
+            if v.index == n.get('d_dv') and n.get('d_vfault') not in ('none', 'empty_list'):
+                return self.value_meta(ctx, field, 'variant_named' if field.named else 'variant_tuple')
+            if v.count == 1:
+                return self.value_meta(ctx, field, 'variant_named' if field.named else 'variant_tuple')
+            if n.get('d_vfault') == 'field_on_other' and ctx.fault is None:
+                bad = pick(r, ['Default = 1', 'Default(expression = 1)', 'Default'])
+                ctx.fault = 'default_field_on_other_variant:' + bad
+                self.note(ctx, 'field', 'other_variant', 'fault', bad)
+                return bad
+            if r.random() < 0.04:
+                self.note(ctx, 'field', 'other_variant', 'Default()')
+                return 'Default()'
+            return None
+        # union
+        if field.index == 0:
+            n['d_df'] = r.randrange(field.count)
+            n['d_ufault'] = None
+            if ctx.want_fault and ctx.fault is None and r.random() < 0.25:
+                n['d_ufault'] = pick(r, ['none', 'two'])
+        uf = n['d_ufault']
+        is_default = field.index == n['d_df']
+        if uf == 'none' and field.count != 1:
+            ctx.fault = 'default_no_field'
+            self.note(ctx, 'field', 'union', 'fault', 'none')
+            return None
+        if uf == 'two' and field.count >= 2 and field.index == (n['d_df'] + 1) % field.count:
+            ctx.fault = 'default_multi_fields'
+            self.note(ctx, 'field', 'union', 'fault', 'two')
+            return pick(r, ['Default', 'Default = 1'])
+        if is_default:
+            if field.count == 1 and r.random() < 0.3:
+                self.note(ctx, 'field', 'union', 'only', 'unmarked')
+                return None
+            if r.random() < 0.5:
+                self.note(ctx, 'field', 'union', 'only' if field.count == 1 else 'marked', 'flag')
+                return 'Default'
+            m = self.value_meta(ctx, field, 'union')
+            if m is None or m == 'Default()':
+                self.note(ctx, 'field', 'union', 'marked', 'flag')
+                return 'Default'
+            return m
+        if r.random() < 0.05:
+            self.note(ctx, 'field', 'union', 'other', 'Default()')
+            return 'Default()'
+        return None
+
+    def post(self, ctx, inp):
+        inp.reach = ctx.notes.get('reach', [])
+
+GENS['Default'] = G_Default()
+
 # ---------------------------------------------------------------- attribute assembly
 OTHER_ATTRS = [Attr('doc', 'nv', '" some docs"'), Attr('allow', 'list', 'dead_code'),
                Attr('cfg_attr', 'list', 'any(), educe(Nope)'), Attr('educe_other', 'list', 'x')]
